@@ -47,6 +47,9 @@ const (
 	// handler *started* cannot be the consequence of a request timeout (every judged mode gives a
 	// request at least 5s), only of a rejection.
 	c06Fast = 750 * time.Millisecond
+	// c06Hammer: so many requests for one key to one scripted peer mean the honest peer is not
+	// handed out any more
+	c06Hammer = 60
 	// c06StallTimeout is what a stalled / silent peer costs a call without deadline
 	c06StallTimeout = 8 * time.Second
 	// c06Cooldown is longer than any case: no cool-down expires while a call is in flight; a cooled
@@ -442,6 +445,22 @@ func (cs *c06ShrexCase) evaluate() string {
 			cs.suspect = map[string]any{"request_key_index": cs.keyIndex(k), "honest_replies_rejected": n}
 			return "rejected"
 		}
+		// One scripted peer asked over and over for this key while no complete honest reply was
+		// rejected: the honest peer is out of the rotation. With the long cool-down that is what
+		// remains after a request to it timed out (it never happens on an idle machine; an
+		// overloaded one takes longer than the request timeout to open a stream): nothing can be
+		// learnt from waiting for the watchdog.
+		if n == 0 {
+			per := map[int]int{}
+			for i := range cs.events {
+				if e := &cs.events[i]; e.key == k && e.peer >= 0 {
+					per[e.peer]++
+					if per[e.peer] >= c06Hammer {
+						return "honest-out-of-rotation"
+					}
+				}
+			}
+		}
 	}
 	return ""
 }
@@ -785,7 +804,7 @@ func (c *c06) shrexPhase() {
 		cases = sel
 	}
 	// stalled cases sleep; run them wide
-	sem := make(chan struct{}, vkit.Scale(64, 160))
+	sem := make(chan struct{}, vkit.Scale(64, 96))
 	var wg sync.WaitGroup
 	for _, cs := range cases {
 		wg.Add(1)
@@ -797,6 +816,10 @@ func (c *c06) shrexPhase() {
 		}(cs)
 	}
 	wg.Wait()
+	// the skips above are tolerated as long as they are exceptional
+	if sk, ok := c.run.Get("shrex/liveness/skipped(honest peer cooled after a timed-out request)"), c.run.Get("shrex/liveness/honest-last-success"); sk*25 > ok {
+		c.run.Inconclusive(fmt.Sprintf("too many liveness cases skipped because the honest peer's request timed out (%d vs %d successes): machine too loaded for the request timeouts", sk, ok))
+	}
 }
 
 func (c *c06) newManager(ctx context.Context, h host.Host) (*peers.Manager, error) {
@@ -990,6 +1013,11 @@ func (c *c06) runShrexCase(net *c06Net, cs *c06ShrexCase) {
 			d["decided_by"] = cs.suspect
 			cs.mu.Unlock()
 			c.violation("shrex", q, "correct replies of the honest peer are rejected after bad replies of other peers; the call cannot succeed", d)
+		case ended == "honest-out-of-rotation":
+			run.Count("shrex/liveness/skipped(honest peer cooled after a timed-out request)", 1)
+			s := detail()
+			s["returned_error"] = res.err.Error()
+			run.Sample(s)
 		case ended == "watchdog":
 			run.Inconclusive(fmt.Sprintf("shrex case %d: call with an honest peer still running at the watchdog: %s %s history=%v", cs.idx, cs.poolDesc(), q.String(), cs.history(t0)))
 		case ctx.Err() != nil && cs.mode != "nodl":
